@@ -65,6 +65,12 @@ func binSample(c *fw.Ctx, res *fw.Result, idx int, tag string, files map[string]
 		if len(want) > 12288 {
 			res.Count("binary_stdout_runs_larger_than_3_pipe_buffers", 1)
 		}
+	} else if stdin != nil && fw.Mix(uint64(idx)+4242)%2 == 0 {
+		// `gofasta ... < file`: standard input is a regular file, not a pipe
+		sp := filepath.Join(d, "stdin.redirect")
+		os.WriteFile(sp, stdin, 0644)
+		br = fw.RunBinStdinFile(bin, fullArgv, sp, nil, d, 40*time.Second)
+		res.Count("binary_runs_with_stdin_redirected_from_a_file", 1)
 	} else {
 		br = fw.RunBin(bin, fullArgv, stdin, nil, d, 40*time.Second)
 	}
